@@ -144,6 +144,11 @@ func (c Cfg) Extenders() []goldmark.Extender {
 		return []goldmark.Extender{extension.DefinitionList}
 	case "footnote":
 		return []goldmark.Extender{c.footnoteExt()}
+	case "tablex":
+		// the table extension with renderer options of its own: they are the table renderer's only
+		return []goldmark.Extender{extension.NewTable(extension.WithTableHTMLOptions(html.WithXHTML(), html.WithHardWraps(), html.WithUnsafe()))}
+	case "footnotex":
+		return []goldmark.Extender{extension.NewFootnote(extension.WithFootnoteHTMLOptions(html.WithXHTML(), html.WithHardWraps(), html.WithUnsafe()))}
 	case "typo":
 		return []goldmark.Extender{c.typoExt()}
 	case "cjk":
